@@ -459,6 +459,87 @@ pub fn run(tier: Tier) -> i32 {
         for v in res.into_iter().flatten() {
             rep.violation(v.0, v.1, v.2);
         }
+        // the same without projection, with a record in which nobody is called (150 skipped samples) among them
+        let mk_np = |order: &[usize]| -> Vec<u8> {
+            let mut cs = CallSet::new(n);
+            for (i, &r) in order.iter().enumerate() {
+                let gts: Vec<String> = (0..n).map(|j| if r == 0 { "./.".to_string() } else { ["0/0", "0/1", "1/1", "0/1"][(j * (r + 2) + r) % 4].to_string() }).collect();
+                cs.push_gts(&gts);
+                let last = cs.records.len() - 1;
+                cs.records[last].pos = 500 + i;
+            }
+            to_vcf(&cs).0
+        };
+        let run_np = |order: &[usize]| -> Result<RefArray, String> { parse_out(&run_sfs(&["create"], Stdin::Bytes(&mk_np(order)), &scratch)) };
+        let singles_np: Vec<Result<RefArray, String>> = (0..4).map(|r| run_np(&[r])).collect();
+        let res_np = par_map(orders.len(), |i| {
+            let got = run_np(&orders[i]);
+            let ok = match (&got, singles_np.iter().map(|s| s.as_ref()).collect::<Result<Vec<_>, _>>()) {
+                (Ok(g), Ok(ss)) => g.data.iter().enumerate().all(|(c, v)| *v == ss.iter().map(|s| s.data[c]).sum::<f64>()),
+                _ => false,
+            };
+            if ok {
+                None
+            } else {
+                Some((
+                    "C11|cli|cohort-order-changes-result|no-projection".to_string(),
+                    format!("150 samples, no projection, records in order {:?} (record 0 has no called sample): the spectrum is not the sum of the four single-record runs: {:?}", orders[i], got.map(|g| g.sum())),
+                    J::obj([("kind", J::s("c11-cohort")), ("order", J::usizes(&orders[i])), ("project", J::Bool(false))]),
+                ))
+            }
+        });
+        for v in res_np.into_iter().flatten() {
+            rep.violation(v.0, v.1, v.2);
+        }
+        // six populations of two samples under projection: records that differ in the first population only
+        let n6 = 12usize;
+        let mk6 = |order: &[usize]| -> Vec<u8> {
+            let mut cs = CallSet::new(n6);
+            for (i, &r) in order.iter().enumerate() {
+                let gts: Vec<String> = (0..n6)
+                    .map(|j| match j {
+                        0 => ["0/0", "0/1", "1/1", "./."][r].to_string(),
+                        1 => ["0/1", "0/1", "0/0", "1/1"][r].to_string(),
+                        5 => "./.".to_string(),
+                        _ => ["0/0", "0/1", "1/1"][j % 3].to_string(),
+                    })
+                    .collect();
+                cs.push_gts(&gts);
+                let last = cs.records.len() - 1;
+                cs.records[last].pos = 900 + i;
+            }
+            to_vcf(&cs).0
+        };
+        let sarg6: String = (0..n6).map(|j| format!("s{j}=p{}", j / 2)).collect::<Vec<_>>().join(",");
+        let run6 = |order: &[usize]| -> Result<RefArray, String> { parse_out(&run_sfs(&["create", "-s", &sarg6, "--project-shape", "3,3,2,3,3,3", "--precision", "10"], Stdin::Bytes(&mk6(order)), &scratch)) };
+        let singles6: Vec<Result<RefArray, String>> = (0..4).map(|r| run6(&[r])).collect();
+        let res6 = par_map(orders.len(), |i| {
+            let got = run6(&orders[i]);
+            let ok = match (&got, singles6.iter().map(|s| s.as_ref()).collect::<Result<Vec<_>, _>>()) {
+                (Ok(g), Ok(ss)) => g.data.iter().enumerate().all(|(c, v)| (v - ss.iter().map(|s| s.data[c]).sum::<f64>()).abs() <= 1e-8),
+                _ => false,
+            };
+            if ok {
+                None
+            } else {
+                Some((
+                    "C11|cli|six-populations-order-changes-result".to_string(),
+                    format!("12 samples in 6 populations, --project-shape 3,3,2,3,3,3, records in order {:?}: not the sum of the four single-record runs: {:?}", orders[i], got.map(|g| g.sum())),
+                    J::obj([("kind", J::s("c11-sixpop")), ("order", J::usizes(&orders[i]))]),
+                ))
+            }
+        });
+        for v in res6.into_iter().flatten() {
+            rep.violation(v.0, v.1, v.2);
+        }
+        rep.part(Part {
+            name: "cli: 150-sample cohort without projection; six populations under projection".into(),
+            evaluations: 2 * (orders.len() as u64 + 4),
+            nontrivial: 2 * orders.len() as u64,
+            note: "150 samples without projection, one of four records with no called sample (150 skipped samples): all 24 orders give exactly the sum of the single-record runs; 12 samples in 6 populations projected to 3x3x2x3x3x3, four records that differ in the first population only: all 24 orders give the sum of the single-record runs".into(),
+            exhaustive: true,
+            extra: vec![],
+        });
         rep.part(Part {
             name: "cli: 150-sample cohort, every order of four records".into(),
             evaluations: orders.len() as u64 + 4,
